@@ -300,12 +300,15 @@ PROPS["C12"] = dict(
 
 PROPS["C37"] = dict(
     module="c37", func="run", level="other", crates=["emmylua_parser_desc"],
-    technique="typestate (must-consume) check on the CFG for a panicking-Drop guard type + must-pass-through + explicit-panic audit",
-    text="Decides three structural clauses of 'highlighting is total and in order': every BacktrackPoint (Drop panics) is committed "
-         "or rolled back on every path of every markup parser function, the public entry sorts its items on every path, and the "
-         "explicit panics are discharged by audited invariants.",
-    note="NOT decided: that produced ranges lie inside the description, and the ~70 indexing/slicing sites over line arrays "
-         "(value-level line arithmetic; not audited). Trusted: rustc MIR (pre-drop-elaboration Drop terminators), emmyfacts.")
+    technique="typestate (must-consume) check on the CFG for a panicking-Drop guard type + must-pass-through + explicit-panic audit "
+              "+ bounds/underflow site audit (derived bounds facts, else a frozen per-site table) over the markup crate's MIR",
+    text="Decides four structural clauses of 'highlighting is total and in order': every BacktrackPoint (Drop panics) is committed "
+         "or rolled back on every path of every markup parser function, the public entry sorts its items on every path, the "
+         "explicit panics are discharged by audited invariants, and every index / slice / drain site and unsigned subtraction of the "
+         "crate is discharged by a derived bounds fact or an audited per-site invariant (a new unguarded site is reported).",
+    note="NOT decided: that produced ranges lie inside the description; a changed expression at an already-audited site (the table is "
+         "keyed by function, kind and ordinal, not by content). Trusted: rustc MIR (pre-drop-elaboration Drop terminators), emmyfacts, "
+         "the 85 audited reasons in tables/panic_audit.json (read against the code, block contracts of the rst/markdown line parsers).")
 
 PROPS["C22"] = dict(
     module="c22", func="run", level="other", crates=["emmylua_parser", "emmylua_code_analysis"],
